@@ -541,6 +541,7 @@ def run_c14(w: World, rep: Report):
         _split_layout(w, rep, cx, lock)
     t1_pair(w, rep, 'C14.T1', 'make_delegate_key_lock', 'make_delegate_key_witness')
     ctor_field_agreement(w, rep, 'C14.T8')
+    cert_padding(w, rep, 'C14.T7')
     from .report import depend
     depend(rep, w, 'rules_c02', ('C02.R1', 'C02.R2', 'C02.R3', 'C02.R4', 'C02.R5'), 'C14.TD2',
            'the signature instructions the delegation locks rely on (allowed flags per bit, one message builder, length '
@@ -571,9 +572,17 @@ def _necessary_trusted(p: Path, it: Item) -> bool:
 
 def _split_layout(w: World, rep: Report, cx: Ctx, lock: str):
     """Offsets used with split agree with Certificate.preimage: 32-byte key, 4+4 byte ts, 1 flag byte, sig."""
-    cert = w.repo.func('tools', 'Certificate.unpack')
-    txt = ast.unparse(cert.node).replace(' ', '')
-    layout_ok = 'data[:32]' in txt and txt.count('data[:4]') == 2 and 'data[0]==255' in txt
+    sizes, lwhy = _cert_layout(w)
+    layout_ok = sizes[:4] == [32, 4, 4, 1]
+    # the may-delegate flag is decoded by comparing the byte with 0xff (the value preimage() writes for True);
+    # truthiness of a one-byte string is always True
+    ufi = w.repo.func('tools', 'Certificate.unpack')
+    flag_cmp = any(isinstance(n, ast.Compare) and len(n.ops) == 1 and isinstance(n.ops[0], ast.Eq) and
+                   isinstance(n.comparators[0], ast.Constant) and n.comparators[0].value in (255, b'\xff')
+                   for n in ast.walk(ufi.node))
+    if not flag_cmp:
+        layout_ok = False
+        lwhy += '; the may-delegate byte is not decoded by comparison with 0xff'
     for v in cx.variants(lock):
         offs = []
         tree = cx.tree(v)
@@ -586,7 +595,80 @@ def _split_layout(w: World, rep: Report, cx: Ctx, lock: str):
                 prev = n
         ok = layout_ok and offs == [41, 40, 36, 32]
         rep.check('C14.T7', f'{_vtag(v)}|split-offsets', ok, line=v.line, file=REL,
-                  why='' if ok else f'the lock splits the certificate at {offs}; the Certificate layout needs 41, 40, 36, 32')
+                  why='' if ok else (f'the lock splits the certificate at {offs}; the Certificate layout needs 41, 40, 36, 32' if layout_ok
+                                     else f'Certificate.unpack reads fields of sizes {sizes} ({lwhy}); the locks assume 32, 4, 4, 1, 64'))
+
+
+def _cert_layout(w: World):
+    """Field sizes that Certificate.unpack reads, in order: from progressive re-slicing (`x, data = data[:N], data[N:]`,
+    `data[0]`, `data[1:]`) or from one struct format."""
+    import struct as _struct
+    import re as _re
+    fi = w.repo.func('tools', 'Certificate.unpack')
+    for n in ast.walk(fi.node):
+        if isinstance(n, ast.Call) and dotted(n.func) in ('struct.unpack', 'unpack') and n.args and \
+                isinstance(n.args[0], ast.Constant) and isinstance(n.args[0].value, str):
+            fmt = n.args[0].value
+            order = fmt[0] if fmt[:1] in '@=<>!' else ''
+            sizes = []
+            try:
+                for cnt, ch in _re.findall(r'(\d*)([a-zA-Z?])', fmt[len(order):]):
+                    if ch in 'sp':
+                        sizes.append(_struct.calcsize(order + cnt + ch))
+                    else:
+                        sizes += [_struct.calcsize(order + ch)] * (int(cnt) if cnt else 1)
+            except _struct.error:
+                return [], f'unreadable struct format {fmt!r}'
+            return sizes, f'struct format {fmt!r}'
+    sizes = []
+    for st in fi.node.body:
+        if isinstance(st, ast.Assign) and isinstance(st.targets[0], ast.Tuple) and isinstance(st.value, ast.Tuple) and \
+                len(st.value.elts) == 2:
+            a, b = st.value.elts
+            if isinstance(a, ast.Subscript) and isinstance(a.slice, ast.Slice) and a.slice.lower is None and \
+                    isinstance(a.slice.upper, ast.Constant) and isinstance(b, ast.Subscript) and isinstance(b.slice, ast.Slice) \
+                    and isinstance(b.slice.lower, ast.Constant) and b.slice.lower.value == a.slice.upper.value:
+                sizes.append(a.slice.upper.value)
+    txt = ast.unparse(fi.node).replace(' ', '')
+    if _re.search(r'\w+\[0\]==255', txt):
+        sizes.append(1)
+    if _re.search(r'=\w+\[1:\]', txt):
+        sizes.append(64)
+    return sizes, 'progressive slicing'
+
+
+def cert_padding(w: World, rep: Report, rule: str):
+    """Certificate.preimage writes each timestamp as 4 bytes big-endian: the signed encoding padded with zero bytes
+    on the *left*.  Padding on the right shifts small values by whole bytes."""
+    fi = w.repo.func('tools', 'Certificate.preimage')
+    left, right = 0, []
+    for n in ast.walk(fi.node):
+        if isinstance(n, ast.Call) and isinstance(n.func, ast.Attribute):
+            if n.func.attr == 'rjust' and n.args and isinstance(n.args[0], ast.Constant) and n.args[0].value == 4:
+                left += 1
+            if n.func.attr == 'ljust':
+                right.append(n.lineno)
+            if n.func.attr == 'to_bytes' and n.args and isinstance(n.args[0], ast.Constant) and n.args[0].value == 4 and \
+                    (len(n.args) > 1 and isinstance(n.args[1], ast.Constant) and n.args[1].value == 'big'):
+                left += 1
+        if isinstance(n, (ast.Assign, ast.AugAssign)):
+            v = n.value
+            tg = n.targets[0] if isinstance(n, ast.Assign) else n.target
+            if isinstance(tg, ast.Name) and isinstance(v, ast.BinOp) and isinstance(v.op, ast.Add):
+                zero = lambda e: isinstance(e, ast.Constant) and isinstance(e.value, bytes) and set(e.value) <= {0} and e.value
+                if zero(v.left) and isinstance(v.right, ast.Name) and v.right.id == tg.id:
+                    left += 1
+                if isinstance(n, ast.Assign) and zero(v.right) and isinstance(v.left, ast.Name) and v.left.id == tg.id:
+                    right.append(n.lineno)
+            if isinstance(n, ast.AugAssign) and isinstance(tg, ast.Name) and isinstance(n.op, ast.Add) and \
+                    isinstance(v, ast.Constant) and isinstance(v.value, bytes) and set(v.value) <= {0} and v.value:
+                right.append(n.lineno)
+    ok = left >= 2 and not right
+    rep.check(rule, 'tools.Certificate.preimage|timestamps-left-padded-to-4', ok, line=right[0] if right else fi.node.lineno,
+              file=REL, why='' if ok else
+              ('a timestamp is padded on the right (line %d): values below 2^23 are shifted left by whole bytes, the '
+               'certificate then certifies another window and does not round-trip' % right[0]) if right else
+              'the two timestamps are not visibly padded on the left to 4 bytes')
 
 
 def run_c15(w: World, rep: Report):
